@@ -421,9 +421,27 @@ fn parse_args(args: &[String]) -> Args {
     a
 }
 
+/// true while this process evaluates exactly one case and reports through a JSON verdict line
+pub static ONE_MODE: std::sync::atomic::AtomicBool = std::sync::atomic::AtomicBool::new(false);
+
+/// Print a failing verdict and leave the process immediately (used by hooks that detect a fatal
+/// condition on a thread that cannot be unwound). In shard mode the parent re-runs the journaled
+/// case alone and obtains this verdict from that child.
+pub fn fatal_verdict(property: &str, signature: &str, message: &str) -> ! {
+    static ONLY_ONE: std::sync::Mutex<()> = std::sync::Mutex::new(());
+    let _guard = ONLY_ONE.lock();
+    if ONE_MODE.load(std::sync::atomic::Ordering::Relaxed) {
+        println!("{}", json!({"verdict": "fail", "property": property, "signature": signature, "message": message}));
+        use std::io::Write;
+        let _ = std::io::stdout().flush();
+    }
+    std::process::exit(77)
+}
+
 /// Run one case file in this process; prints a JSON verdict line. Used for isolation.
 fn one_main<C: Check>(check: &C, path: &Path) -> i32 {
     quiet_panics();
+    ONE_MODE.store(true, std::sync::atomic::Ordering::Relaxed);
     let v: Value = serde_json::from_slice(&std::fs::read(path).expect("read case")).expect("case json");
     let v = v.get("case").cloned().unwrap_or(v);
     let case: C::Case = serde_json::from_value(v).expect("case does not deserialize for this property");
@@ -456,8 +474,8 @@ fn eval_case<C: Check>(check: &C, case_json: &Value, tmpdir: &Path) -> Result<Ou
         let o = std::process::Command::new(exe).arg(check.id()).arg("--one").arg(&p).output().map_err(|e| e.to_string())?;
         let _ = std::fs::remove_file(&p);
         let stdout = String::from_utf8_lossy(&o.stdout);
-        let line = stdout.lines().rev().find(|l| l.starts_with('{'));
-        match line.and_then(|l| serde_json::from_str::<Value>(l).ok()) {
+        let verdict = stdout.lines().rev().filter(|l| l.starts_with('{')).find_map(|l| serde_json::from_str::<Value>(l).ok());
+        match verdict {
             Some(v) if v["verdict"] == "pass" => {
                 let mut out = Outcome::default();
                 out.nontrivial = v["nontrivial"].as_bool().unwrap_or(false);
@@ -465,7 +483,11 @@ fn eval_case<C: Check>(check: &C, case_json: &Value, tmpdir: &Path) -> Result<Ou
             }
             Some(v) => {
                 let mut out = Outcome::default();
-                out.fail(v["signature"].as_str().unwrap_or("?"), v["message"].as_str().unwrap_or("?"));
+                match v["property"].as_str() {
+                    // a fatal condition that belongs to another property: this check cannot judge the case
+                    Some(p) if p != check.id() => out.label("case-aborted-by-violation-of-another-property"),
+                    _ => out.fail(v["signature"].as_str().unwrap_or("?"), v["message"].as_str().unwrap_or("?")),
+                }
                 Ok(out)
             }
             None => {
